@@ -357,7 +357,17 @@ impl Number {
         match self.data.to_lowercase().as_str() {
             "true" => 1,
             "false" => 0,
-            _ => i64::from_str_radix(&self.data, self.radix).ok().unwrap(),
+            // Literals that do not fit are reported by the parser; evaluate them as 0 instead of panicking
+            _ => self.try_value().unwrap_or(0),
+        }
+    }
+
+    /// The value of the literal, if it fits in 64 bits
+    pub fn try_value(&self) -> Option<i64> {
+        match self.data.to_lowercase().as_str() {
+            "true" => Some(1),
+            "false" => Some(0),
+            _ => i64::from_str_radix(&self.data, self.radix).ok(),
         }
     }
 
